@@ -36,10 +36,14 @@ structure Msg where
   callId : String
   deriving DecidableEq, Repr, Inhabited
 
-/-- one streamed chunk of an assistant message -/
+/-- one streamed chunk of an assistant message. `extras` lists the other things the chunk
+    carries (`Extra` entries, `ResponseMeta`, `Name`, … — provider metadata): nothing in the
+    agent looks at them, which is what `CheckCond.holds`, `concat` and the theorem
+    `react_ignores_chunk_metadata` say. -/
 structure Chunk where
   content : String
   calls : List ToolCall
+  extras : List String := []
   deriving DecidableEq, Repr, Inhabited
 
 /-- `schema.ConcatMessages` on assistant chunks whose tool calls arrive whole: contents are
@@ -123,6 +127,10 @@ structure Facts where
   topoRD : Topo
   /-- `compose.WithMaxRunSteps(config.MaxStep)` is among the compile options -/
   maxStepPassed : Bool
+  /-- … and among the compile options `Agent.ExportGraph()` hands out with the graph
+      (`WithGraphCompileOptions(compileOpts...)`), i.e. the ones a parent chain / graph
+      compiles the embedded agent with -/
+  maxStepExported : Bool
   /-- compose default when maxRunSteps == 0: `len(nodes) + defaultSlack` -/
   defaultSlack : Nat
   /-- the model pre-handler does `state.Messages = append(state.Messages, input...)` -/
@@ -155,12 +163,12 @@ def decodeRules : List (String × String) → Option (List (CheckCond × CheckAc
 def Facts.decode (rules : List (String × String)) (atEOF : Bool)
     (pn : List String) (pe : List (String × String)) (pb : List (String × List String))
     (rn : List String) (re : List (String × String)) (rb : List (String × List String))
-    (maxStepPassed : Bool) (slack : Nat) (modelPre toolsPre : Bool) : Option Facts :=
+    (maxStepPassed maxStepExported : Bool) (slack : Nat) (modelPre toolsPre : Bool) : Option Facts :=
   (decodeRules rules).map fun rs =>
     { defaultChecker := { rules := rs, atEOF := atEOF },
       topoPlain := { nodes := pn, edges := pe, branches := pb },
       topoRD := { nodes := rn, edges := re, branches := rb },
-      maxStepPassed := maxStepPassed, defaultSlack := slack,
+      maxStepPassed := maxStepPassed, maxStepExported := maxStepExported, defaultSlack := slack,
       modelPreAppends := modelPre, toolsPreAppends := toolsPre }
 
 def keyStart : String := "start"
@@ -386,5 +394,40 @@ def run (F : Facts) (cfg : Config) (mode : Mode) (orig : List Msg) (script : Lis
       let (st, r) := loop F cfg mode (topoOf F cfg) limit n (.msgs orig) (initSt script)
       { seen := st.seen, evs := st.evs, result := r }
     | _ => { seen := [], evs := [], result := .error .badTopology }
+
+/-! ## the agent embedded in a parent chain / graph through `ExportGraph`
+
+`Agent.ExportGraph()` returns the agent's graph together with the `GraphAddNodeOpt`s to add it
+with (`Chain.AppendGraph(g, opts...)`, `Graph.AddGraphNode(key, g, opts...)`). The parent then
+compiles the agent's graph itself, with the compile options carried by those opts — not with
+the ones `NewAgent` used for its own `Compile`. The embedded agent is one node of the parent
+(one superstep there; the parent's own step limit, nodes + slack ≥ 11, is never reached), its
+run is the run of the same graph under the exported options. -/
+
+/-- where the agent runs: behind `Agent.Generate`/`Agent.Stream`, or as the exported graph
+    inside a parent chain / graph (`Invoke`/`Stream` of the parent) -/
+inductive Host where
+  | agent | exported
+  deriving DecidableEq, Repr
+
+/-- the source facts as they apply to the graph compiled by the parent: the compile options are
+    the exported ones -/
+def Facts.exported (F : Facts) : Facts := { F with maxStepPassed := F.maxStepExported }
+
+def Facts.forHost (F : Facts) : Host → Facts
+  | .agent => F
+  | .exported => F.exported
+
+/-- the run of the agent in either setting -/
+def runAt (F : Facts) (host : Host) (cfg : Config) (mode : Mode) (orig : List Msg)
+    (script : List Reply) : Run :=
+  run (F.forHost host) cfg mode orig script
+
+/-! ## chunk metadata -/
+
+def Chunk.bare (c : Chunk) : Chunk := { c with extras := [] }
+
+/-- the reply with all chunk metadata removed -/
+def Reply.bare (r : Reply) : Reply := { chunks := r.chunks.map Chunk.bare }
 
 end EinoV.C18
